@@ -53,6 +53,11 @@ def gen(rng, tier):
             for cont in ("stack", "heap", "heapval", "locked", "lockedro"):
                 if cont == "stack" or n != 24 or cont in ("heapval", "locked", "lockedro"):
                     cs.append(Case("tryfrom %s %d %s" % (cont, n, hx(p)), cls="container-build/" + cont, expect="ok " + hx(p)))
+    # resize and clone behave like Vec's in every resizable container (shrink to a prefix, grow with zeros, clone keeps the bytes)
+    for n in (0, 1, 16, 33, 100, 4096, 4097):
+        data = rbytes(rng, n)
+        for m in sorted({0, 1, n // 2, max(0, n - 1), n, n + 1, 2 * n + 3}):
+            cs.append(Case("cont_ops %d %s" % (m, hx(data) if n else "-"), cls="container-ops", expect="ok " + hx((data + bytes(max(0, m - n)))[:m])))
     # sealed-box nonces and boxes, object API over containers
     for n in range(0, 40):
         key, nonce, msg = rbytes(rng, 32), rbytes(rng, 24), rbytes(rng, n)
